@@ -321,11 +321,17 @@ func readESearchResponse(dec *imapwire.Decoder) (tag string, data *imap.SearchDa
 			if !dec.ExpectNumber(&num) {
 				return "", nil, dec.Err()
 			}
+			if num == 0 {
+				return "", nil, fmt.Errorf("in search-return-data: invalid message number 0")
+			}
 			data.Min = num
 		case "MAX":
 			var num uint32
 			if !dec.ExpectNumber(&num) {
 				return "", nil, dec.Err()
+			}
+			if num == 0 {
+				return "", nil, fmt.Errorf("in search-return-data: invalid message number 0")
 			}
 			data.Max = num
 		case "ALL":
